@@ -255,8 +255,14 @@ def run(ck):
     # 3. data-movement programs: zero AND gates
     mv = [movement_program(ck.rng) for _ in range(60 if quick else 1000)]
     import lowertie
-    lowertie.tie_pass(ck, srcs[:80 if quick else 1500] + [("mv%d" % i, s) for i, s in enumerate(mv[:40 if quick else 600])],
-                      max_programs=120 if quick else 2100)
+    trecs = lowertie.tie_pass(ck, srcs[:80 if quick else 1500] + [("mv%d" % i, s) for i, s in enumerate(mv[:40 if quick else 600])],
+                              max_programs=120 if quick else 2100)
+    mvr = [r for r in trecs if r["name"].startswith("mv") and r["status"] == "equal"]
+    mv_proved = sum(1 for r in mvr if r.get("kfree") == "ok")
+    ck.obligation("the generated data-movement programs are in the class for which zero AND gates is a THEOREM "
+                  "(FreeLower.data_movement_zero_and via the extracted klower_main): at least 90% of the tied ones",
+                  mv_proved >= 0.9 * max(1, len(mvr)), f"{mv_proved}/{len(mvr)}")
+    ck.coverage["movement_programs_in_proved_class"] = f"{mv_proved}/{len(mvr)}"
     mj = [f"(compile m{i} (src {quote(s)}))" for i, s in enumerate(mv)]
     mr = run_jobs(GVRUN, mj, "c15.m", timeout_per_job=3.0)
     mv_ok = 0
